@@ -20,6 +20,23 @@ Theorem C08_chanmap_total :
 Proof. exact chanmap_total. Qed.
 Print Assumptions C08_chanmap_total.
 
+(* F22: a booking is known to the store exactly as long as one of its connections is - ChildrenByParent has a
+   key iff some child maps to it; in particular no empty map is kept for a past booking *)
+Theorem C08_no_empty_parent_entries :
+  forall ops, fresh_adds ops ->
+    forall p, plk p (children (fst (crun cm_init ops))) <> None <->
+              exists c, mlk c (pbc (fst (crun cm_init ops))) = Some p.
+Proof. exact no_empty_parent_entries. Qed.
+Print Assumptions C08_no_empty_parent_entries.
+
+(* non-vacuity: the last child of a booking goes (by child delete, twice) and the booking's key with it *)
+Example C08_witness_empty_parent :
+  let ops := [Add 7 11 11; Add 7 12 12; Add 8 13 13; DelChild 11; DelCloseChild 12]%N in
+  fresh_adds ops /\ dump_children (fst (crun cm_init ops)) = [(8, Some [(13, 13)])]%N /\
+  (* before F22 the emptied booking stayed, with an empty map *)
+  dump_children (fst (crun_old cm_init ops)) = [(7, Some []); (8, Some [(13, 13)])]%N.
+Proof. vm_compute. repeat split; intuition discriminate. Qed.
+
 (* every event list (admissions, registrations, read errors, floods into readers that never drain,
    drains, denies) with fresh connection names: the hub loop, the deny loop and serveWs's shared-state
    steps all complete - no goroutine panics and the hub always returns to its select *)
